@@ -36,7 +36,7 @@ try:
             res["suite_tail"] = out.strip().splitlines()[-1] if out.strip() else ""; res["suite_s"] = round(time.time() - t)
         for prop in (a.props.split(",") if a.props else [a.prop]):
             t = time.time()
-            rc, out = run(f"./check {prop} --tier {a.tier}", env={"VERIF_REPO": wt, "VERIF_SEED": a.seed}, cwd="/verif", timeout=6 * 3600)
+            rc, out = run(f"./check {prop} --tier {a.tier}", env={"VERIF_REPO": wt, "VERIF_SEED": a.seed}, cwd=os.environ.get("VERIF_EVAL_DIR", "/verif"), timeout=6 * 3600)
             sigs = sorted({l.split("=", 1)[1].strip() for l in out.splitlines() if l.strip().startswith("signature=")})
             res[f"check_{prop}"] = {"rc": rc, "s": round(time.time() - t), "signatures": sigs[:8], "tail": out[-400:] if rc not in (0, 1) else ""}
 finally:
